@@ -2,7 +2,7 @@
    Statements only; proofs are in Print/ValueProofs.v, Print/HeapProofs.v, Print/RoundTrip.v. *)
 From HyV Require Import Print.Syntax Print.Names Print.Reader Print.ModelRepr Print.ValueRepr Print.TableOracle
      Print.ReaderFacts Print.StringFacts Print.AtomFacts Print.RoundTrip Print.ValueProofs Print.HeapProofs
-     Print.Ser Print.GenChecks Print.Witness27.
+     Print.Ser Print.GenChecks Print.Witness27 Print.Toy.
 
 (* The property as stated, for the model: every value of the documented types is printed as a
    text that the reader takes as one form, and that form evaluates to the value. *)
@@ -63,6 +63,11 @@ Theorem C27_slice_keyword_refuted :
             /\ eval veqb m = None.
 Proof. exact slice_keyword_refuted. Qed.
 Print Assumptions C27_slice_keyword_refuted.
+
+(* the oracle hypotheses are satisfiable (a concrete oracle: decimal integers, floats written 0f<bits>) *)
+Theorem C27_oracle_hypotheses_satisfiable : exists W, num_facts W /\ names_facts W.
+Proof. exact facts_satisfiable. Qed.
+Print Assumptions C27_oracle_hypotheses_satisfiable.
 
 (* a non-trivial value that meets the hypotheses of the round trip *)
 Example C27_hypotheses_met : forall key_eq, key_eq (VInt 1) (VStr [97]) = false ->
